@@ -497,7 +497,6 @@ theorem step_done_terminal (s : St) (a : Act) (ht : terminal s = true) (hd : s.d
     | dtlsFail => exact ⟨(terminal_congr s _ rfl rfl).trans ht, hd⟩
     | iceFail => exact ⟨(terminal_congr s _ rfl rfl).trans ht, hd⟩
     | iceStop => exact ⟨(terminal_congr s _ rfl rfl).trans ht, hd⟩
-    | iceLateFail => exact ⟨(terminal_congr s _ rfl rfl).trans ht, hd⟩
     | iceDisconnect => exact ⟨(terminal_congr s _ rfl rfl).trans ht, hd⟩
     | iceRecover => exact ⟨(terminal_congr s _ rfl rfl).trans ht, hd⟩
     | iceConnect => exact ⟨(terminal_congr s _ rfl rfl).trans ht, hd⟩
